@@ -10,6 +10,7 @@ Event kinds (see spec/USim.tla):
   end  activity ended (how: ok | cancelled | closed | failed | signal)
 """
 import sys
+import types
 
 sys.unraisablehook = lambda *args: None   # silence GC-time clean-up of abandoned coroutines
 
@@ -78,6 +79,30 @@ class LivelockAbort(BaseException):
     """raised by the harness when one time step executes too many activations"""
 
 
+@types.coroutine
+def unwinding(awaitable):
+    """await `awaitable`; if the awaiting coroutine is closed, the GeneratorExit is THROWN into the awaitable (so that
+    an async generator behind an __anext__() is unwound and its `finally` clauses run) instead of merely closing it"""
+    it = awaitable.__await__()
+    try:
+        command = it.send(None)
+    except StopIteration as done:
+        return done.value
+    while True:
+        try:
+            reply = yield command
+        except BaseException as err:     # GeneratorExit included
+            try:
+                command = it.throw(err)
+            except StopIteration as done:
+                return done.value
+        else:
+            try:
+                command = it.send(reply)
+            except StopIteration as done:
+                return done.value
+
+
 class World:
     def __init__(self, prog, nroots, nflags=2, nlocks=2, max_turns=5000, nqueues=2, nchans=2,
                  nres=2, resinit=2, reskind='res', horizon=float('inf'), nt=1, resinitb=0):
@@ -93,6 +118,8 @@ class World:
         self.stream_id.update({id(c): ('ch', i) for i, c in self.chans.items()})
         self.iters = {}       # (activity, channel) -> async iterator of a consumer
         self.ticks = {}       # ticker key -> date of its last tick
+        self.flow_workers = []      # coroutines handed to collect() / first()
+        self.kept = []              # ticker objects that outlive their activity (op tick with keep)
         self.horizon = horizon  # largest date of the model configuration being replayed
         self.strict = horizon != float('inf') and False
         self.pipe = None
@@ -609,12 +636,10 @@ class Puppet:
             self.emit('u', op='flow', exc=self.w.enc(err))
             raise
         finally:
-            # (only activities that were never started are disposed of here - e.g. after a ValueError for the count;
-            # one that is still running after the call has ended must stay visible to the monitor)
-            import inspect
-            for wk in workers:
-                if inspect.getcoroutinestate(wk) == inspect.CORO_CREATED:
-                    wk.close()
+            # activities that were never started are disposed of when the whole RUN is over (e.g. after a ValueError
+            # for the count); until then every one of them must stay visible to the monitor: one that starts or goes
+            # on after the call has ended is what `loser_ran_after` is about
+            self.w.flow_workers.extend(workers)
 
     # ------------------------------------------------------------ tickers
     async def op_mktick(self, op):
@@ -632,7 +657,17 @@ class Puppet:
             if it is None:
                 it = self.w.iters[key] = (interval if op['kind'] == 'interval' else delay)(op['p']).__aiter__()
             try:
-                return await it.__anext__()
+                if op.get('keep'):
+                    # the ticker OBJECT outlives the activity that iterates it (kept by the world, as an attribute of
+                    # a long-lived object would be) and is stepped as `async for` does
+                    self.w.kept.append(it)
+                    return await it.__anext__()
+                # a puppet steps its tickers one operation at a time, so the iterator is referenced from outside the
+                # activity.  Python's coroutine.close() closes the pending __anext__() awaitable WITHOUT unwinding
+                # the generator behind it; the generator is unwound when its last reference goes, which for `async
+                # for ticker in interval(..)` inside the closed activity is at once.  `unwinding` gives the puppets
+                # that behaviour independent of reference counts (the other case is the `keep` variant above).
+                return await unwinding(it.__anext__())
             except BaseException:
                 self.w.iters.pop(key, None)     # the generator is finished
                 raise
@@ -784,7 +819,12 @@ class Puppet:
         elif kind == 'until_f':
             scope = until(w.flags[op['f']])
         elif kind == 'until_c':
-            scope = until(self.cond(op['c']))
+            made = w.iters.get((self.a, 'cond', op.get('j'))) if 'j' in op else None
+            if 'j' in op and made is None:
+                return      # (the slot was never filled)
+            if made is not None:    # a condition OBJECT built earlier (op mkc) and possibly used before
+                op = dict(op, c=made[0])
+            scope = until(made[1] if made is not None else self.cond(op['c']))
         else:
             raise ValueError(kind)
         s = w.nsc + 1
@@ -871,7 +911,7 @@ def run_program(prog, nroots, nflags=2, nlocks=2, start=0, nqueues=2, nchans=2, 
         world.frozen = True
         # tear down what is still suspended HERE, outside any simulation: left to the garbage collector, a leftover
         # would be closed during some later run and its clean-up code would schedule into that run's loop
-        leftovers = [t.__runner__ for _, t in sorted(world.tasks.items(), reverse=True)] + roots
+        leftovers = [t.__runner__ for _, t in sorted(world.tasks.items(), reverse=True)] + roots + world.flow_workers
         for coro in leftovers:
             try:
                 coro.close()
